@@ -31,6 +31,8 @@ type WorkPlan struct {
 	RequeueFast bool    `json:"requeue_fast,omitempty"` // ... as soon as every task has run once, and expect the re-run promptly
 	NoChan      bool    `json:"no_chan,omitempty"`      // C06: no error reporting channel is set (and stderr reporting is off): only the returned errors are checked
 	Shutdown2   bool    `json:"shutdown2,omitempty"`    // a second caller invokes Shutdown while the first call is in progress; the clauses about the return of Shutdown hold for both
+	Flip        int     `json:"flip,omitempty"`         // C06 with management: module Flip-1 is disabled and, FlipDur later, enabled again without a management pass in between (no effect on the running module)
+	FlipDur     int     `json:"flip_dur,omitempty"`     // flipLadder index
 	Warm        bool    `json:"warm,omitempty"`         // C05 with management: all modules are stopped and started once before the workload, with a worker started on each stopped module that outlives the restart
 }
 
@@ -58,6 +60,8 @@ type WItem struct {
 	Done       int    `json:"done,omitempty"`        // signal variants: how many times done is called (>=1)
 	Backoff    int    `json:"backoff,omitempty"`     // svc: backoffLadder index of the restart back-off
 }
+
+var flipLadder = []time.Duration{2 * time.Second, 30 * time.Second, 2 * time.Minute}
 
 var backoffLadder = []time.Duration{time.Second, 20 * time.Second, 50 * time.Second, 0 /* the library's default */}
 
@@ -147,7 +151,7 @@ func genWork(rng *rand.Rand, tier, prop string) *WorkPlan {
 		}
 		p.Mods = append(p.Mods, m)
 	}
-	p.Late = prop == "C05" && rng.IntN(6) == 0
+	p.Late = (prop == "C05" && rng.IntN(6) == 0) || (prop == "C06" && rng.IntN(10) == 0)
 	p.Post = rng.IntN(2) == 0
 	p.Limit = 2 + rng.IntN(5)
 	p.Settle = rng.IntN(len(durLadder))
@@ -212,6 +216,9 @@ func genWork(rng *rand.Rand, tier, prop string) *WorkPlan {
 		}
 	}
 	p.Shutdown2 = prop == "C05" && rng.IntN(5) == 0
+	if prop == "C06" && p.Mgmt && rng.IntN(3) == 0 {
+		p.Flip, p.FlipDur = 1+rng.IntN(n), rng.IntN(len(flipLadder))
+	}
 	if p.Mgmt && rng.IntN(2) == 0 {
 		k := 1 + rng.IntN(n)
 		for i := 0; i < k; i++ {
@@ -257,6 +264,7 @@ type workState struct {
 	fastRequeueT      time.Duration
 	startT, stopT     time.Duration
 	errCh             chan *modules.ModuleError
+	oldCh             chan *modules.ModuleError // a channel registered before errCh: nothing may arrive on it
 	panicsFired       int
 	panicVals         []any
 	lifePanics        [3]int // fired lifecycle panics per phase
@@ -489,6 +497,13 @@ func execWork(prop string, p *WorkPlan, rc *simkit.RunCtx) {
 	modules.SetMaxConcurrentMicroTasks(p.Limit)
 	s.errCh = make(chan *modules.ModuleError, 4096)
 	if !p.NoChan {
+		if p.Limit%2 == 0 {
+			// the channel is registered a second time (a component that re-registers itself): reports go to the
+			// channel registered last
+			s.oldCh = make(chan *modules.ModuleError, 4096)
+			modules.SetErrorReportingChannel(s.oldCh)
+			rc.Probe("error-channel-registered-twice")
+		}
 		modules.SetErrorReportingChannel(s.errCh)
 	} else {
 		rc.Probe("no-error-channel")
@@ -595,6 +610,14 @@ func execWork(prop string, p *WorkPlan, rc *simkit.RunCtx) {
 					time.Sleep(time.Millisecond)
 				}
 			}
+		}
+		if p.Flip > 0 && p.Mgmt && p.Flip <= len(s.mods) && prop == "C06" {
+			// flags flipped and flipped back before any management pass acts on them
+			fm := s.mods[p.Flip-1]
+			fm.Disable()
+			time.Sleep(flipLadder[p.FlipDur%len(flipLadder)])
+			fm.Enable()
+			rc.Probe("enabled-flag-flipped-and-restored")
 		}
 		if d := durLadder[p.Settle]; d > 0 {
 			time.Sleep(d)
@@ -814,6 +837,11 @@ func (s *workState) final() {
 	s.finalStatus = modules.GetStatus()
 	s.finalMicro = modules.VerifSimMicroTasks()
 	if rc.Failed() {
+		return
+	}
+	if s.oldCh != nil && len(s.oldCh) > 0 {
+		me := <-s.oldCh
+		rc.Fail("C06.report-count", "an error report went to a channel that had been replaced by a later registration", me.Error())
 		return
 	}
 	if len(s.postRan) > 0 {
